@@ -2,7 +2,7 @@
 
    [static_dynamic]: for tables satisfying the computable condition [tables_c21] (re-checked on the live tables on
    every run), in a world where every named path suits every format, if [check T t s] accepts, the target t is
-   in the theorem's domain ([c21_target_ok]: no bytes position, hashable set-item / dict-key types), the value
+   in the theorem's domain ([c21_target_ok]: hashable set-item / dict-key types), the value
    conforms to s and fits t's fixed tuple lengths, then [coerce T W false t v] is not a rejection. *)
 From Pydra Require Import Base.Prelude Model.Typing Spec.Typing Proofs.Typing Proofs.TypingNss.
 Local Open Scope string_scope.
@@ -60,7 +60,7 @@ Proof.
 Qed.
 
 (* ------------------------------------------------------------------ conditions on the tables *)
-Definition targets : list cls := [CNone; CBool; CInt; CFloat; CStr; CPath; CFile FFile; CFile FText; CFile FDir].
+Definition targets : list cls := scalar_value_classes.
 Definition origins : list cls := [CList; CTuple; CSet; CFrozenset; CDict].
 Definition static_classes : list cls := (scalar_bases ++ origins ++ [CMulti])%list.
 
@@ -686,11 +686,9 @@ Qed.
 Lemma base_target c :
   c21_target_ok (TBase c) = true -> c = KAny \/ In c targets.
 Proof.
-  cbn [c21_target_ok]. intros H. apply andb_true_iff in H. destruct H as [Hb H].
+  cbn [c21_target_ok]. intros H.
   apply orb_true_iff in H. destruct H as [H|H]; [left; now apply cls_eqb_eq|right].
-  apply existsb_exists in H. destruct H as [c' [Hin Heq]]. apply cls_eqb_eq in Heq. subst c'.
-  cbn in Hin. cbn.
-  destruct Hin as [<-|[<-|[<-|[<-|[<-|[<-|[<-|[<-|[<-|[<-|[]]]]]]]]]]]; try tauto. discriminate.
+  apply existsb_exists in H. destruct H as [c' [Hin Heq]]. apply cls_eqb_eq in Heq. now subst c'.
 Qed.
 
 Lemma check_union_inv ps s v :
